@@ -150,6 +150,10 @@ class CountIter:
         return v
 
 
+class StepLimit(Exception):
+    """More cursor operations than any linear bound allows: logged as an observation."""
+
+
 def watched_run(text: str, o: dict, chunks=None) -> tuple:
     """Tokenize with Tokenizer._next_char wrapped from outside.  -> (events, cursor ops, outcome)"""
     src = CountIter(chunks) if chunks is not None else None
@@ -167,6 +171,8 @@ def watched_run(text: str, o: dict, chunks=None) -> tuple:
         if tok._char_index != state['idx']:
             ops.append(cur_obs('rewind' if tok._char_index == state['idx'] - 1 else 'jump', 0))
         line, cr = tok.line_num, tok._last_was_cr
+        if len(ops) > 4 * (len(text) + 2) + 16:
+            raise StepLimit(f'{len(ops)} cursor operations on {len(text)} characters')
         c = orig()
         code = ord(c) if c is not None else -1
         if not state['done']:
@@ -399,11 +405,14 @@ def kv_tree(kv) -> list:
 
 
 def kv_outcome(data, flags: dict) -> dict:
+    toklib.watchdog_on()
     try:
         tree = Keyvalues.parse(data, flags=flags)
+        toklib.watchdog_off()
         return {'etype': '', 'err': toklib.NO_ERR, 'msg': '', 'where': '',
                 'tree': json.dumps(kv_tree(tree), separators=(',', ':'))}
     except Exception as exc:  # noqa: BLE001 - every exception type is an observation
+        toklib.watchdog_off()
         err, etype, msg = toklib.classify_error(exc, KeyValError)
         tb = traceback.extract_tb(exc.__traceback__)[-1]
         where = f'{os.path.basename(tb.filename)}:{tb.name}:{(tb.line or "").strip()}' if etype != 'KeyValError' else ''
